@@ -855,6 +855,78 @@ def probe_cases():
     return [{"kind": k, "callable": n, "args": list(a), "recv": list(r) if r else None} for (k, n, a, r) in probes()]
 
 
+# ---------------------------------------------------------------------------
+# clause: re-use of an argument object that the caller has changed in place.
+# call f(a, ...); a.set(new value); call f(a, ...) again with the SAME objects:
+# the second result must equal f called with fresh objects of the new value
+# (a callee that remembers its argument by identity, or caches on it, differs).
+
+def check_reuse(case):
+    name = case["callable"]
+    S = SP.specs()
+    spec = S[name]
+    out = []
+    params = spec["params"]
+    for i, (kind, base, alts) in enumerate(params):
+        if kind not in ("angle", "epoch") or not alts:
+            continue
+        alt = alts[0]
+        if not (isinstance(alt, tuple) and alt and alt[0] in ("A", "E")):
+            continue
+        tags = list(base_tags(spec))
+        tags[i] = alt
+
+        def fresh(tags=tags):
+            k3, r3, _, _ = do_call(name, spec, tags, {})
+            return ("ok", canon(r3)) if k3 == "ok" else ("exc", type(r3).__name__)
+        # expected value first, in a forked child of the still untouched process
+        st, exp = run_in_fork(fresh)
+        if st != "ok":
+            exp = ("err", exp)
+        # prime with other objects holding the new value, so that a callee which remembers
+        # "the last argument" has to take up the objects of the next call
+        do_call(name, spec, tags, None)
+        # distinct objects per parameter (no pooling): changing one must not alias another
+        k1, r1, recv, args = do_call(name, spec, base_tags(spec), None)
+        if k1 != "ok":
+            continue
+        obj = args[i]
+        try:
+            obj.set(alt[1])            # the caller changes its own object in place
+        except Exception:
+            continue
+        fn, is_method = resolve(name)
+        try:
+            if is_method:
+                r2 = getattr(recv, name.split("#")[0].split(".")[1])(*args, **spec["kwargs"])
+            else:
+                r2 = fn(*args, **spec["kwargs"])
+            got = ("ok", canon(r2))
+        except Exception as ex:
+            got = ("exc", type(ex).__name__)
+        if got != exp:
+            out.append("%s: after the caller changed argument %d in place (%r -> %r) a second call with the same "
+                       "objects gives %r, a call with fresh objects in a fresh process gives %r"
+                       % (name, i, base, alt, got, exp))
+    return out
+
+
+def run_reuse(block, ctx):
+    S = SP.specs()
+    for name in block:
+        n = sum(1 for (k, b, a) in S[name]["params"] if k in ("angle", "epoch") and a)
+        ctx.evals += 4 * n
+        ctx.states += 1
+        ctx.transitions += 4 * n
+        if n:
+            ctx.nt_count += n
+        for msg in check_reuse({"callable": name}):
+            ctx.viol({"callable": name}, msg, site="reused_argument")
+        ctx.outcome((name, n))
+    ctx.traces += len(block)
+    ctx.sample({"callable": block[0]})
+
+
 def clauses(tier):
     S = SP.specs()
     names = sorted(S)
@@ -868,6 +940,7 @@ def clauses(tier):
                shape="H"),
         Clause("pair_histories", order, run_pairs, replay_pair, floor=1000, shape="H"),
         Clause("copy_independence", chunks(copy_cases(), 8), run_copy, check_copy, floor=50, shape="H"),
+        Clause("reused_arguments", chunks(order, 32), run_reuse, check_reuse, floor=100, shape="H"),
         Clause("totality", tot_blocks, run_totality, replay_totality, floor=500, shape="H"),
         Clause("boundary_probes", chunks(probe_cases(), 4), run_probes, _replay_probe, floor=50, shape="H"),
     ]
